@@ -12,7 +12,12 @@ Reading of the statement
     itself gives 1: non-zero vector (cosine types), non-constant vector (correlation
     types, tau-b), no ties (tau-a, rho-a) — with ties tau-a/rho-a of a vector with itself
     are 1 − (tie deficit) *by their definition*, which the first sentence fixes;
-  * Bures measures are only spoken of for Euclidean-embeddable RDMs.
+  * Bures measures are only spoken of for Euclidean-embeddable RDMs;
+  * "for any two stacks ... compare() returns the chosen measure between the i-th RDM of the first and
+    the j-th of the second stack" holds for every call, also when the same objects were handed to
+    compare() before (round 4, `check_session`): each call of a session is judged on a pristine copy of
+    the ORIGINAL numbers, a call must leave its inputs bit-identical, and a read-only array is a valid
+    input.
 """
 import itertools
 import math
@@ -278,6 +283,9 @@ def check_compare(case, call, permute_vec, permute_sigma):
         return float(np.trace(gx) + np.trace(gy) - 2 * f)
 
     M = call(case['x'], case['y'], method, sig, 'array')
+    if M == {'exc': 'InputModified'}:
+        return _fail(case, 'purity', 'compare() changed the arrays it was given', 'inputs modified',
+                     'inputs bit-identical after the call')
     if isinstance(M, dict):
         return _fail(case, 'definition', 'compare() raises on valid input', M, 'a matrix')
     if len(M) != len(X) or any(len(r) != len(Y) for r in M):
@@ -369,6 +377,105 @@ def check_compare(case, call, permute_vec, permute_sigma):
                                  b, a)
     return None
 
+
+def define_matrix(method, n, sig, X, Y):
+    """matrix of the definitions (None where 0/0), or None when the stacks are outside the quantifier"""
+    kx = ky = None
+    if method.startswith('bures'):
+        kx, ky = [kernel(n, v) for v in X], [kernel(n, v) for v in Y]
+        for g in kx + ky:
+            if np.linalg.eigvalsh(g).min() < -1e-9 or np.trace(g) <= 1e-12:
+                return None
+    vinv = None
+    if method in ('corr_cov', 'cosine_cov'):
+        vinv = inverse(v_matrix(n, sig))
+        if vinv is None:
+            return None
+    out = []
+    for i, x in enumerate(X):
+        row = []
+        for j, y in enumerate(Y):
+            if method == 'cosine':
+                w = d_cosine(x, y)
+            elif method == 'corr':
+                w = d_corr(x, y)
+            elif method == 'spearman':
+                w = d_spearman(x, y)
+            elif method in ('kendall', 'tau-b'):
+                w = d_tau_b(x, y)
+            elif method == 'tau-a':
+                w = d_tau_a(x, y)
+            elif method == 'rho-a':
+                w = d_rho_a(x, y)
+            elif method == 'cosine_cov':
+                w = d_whitened(x, y, vinv)
+            elif method == 'corr_cov':
+                w = d_whitened(centred(x), centred(y), vinv)
+            else:
+                f = fidelity(kx[i], ky[j])
+                if method == 'bures':
+                    w = f / math.sqrt(np.trace(kx[i]) * np.trace(ky[j]))
+                else:
+                    w = (float(np.trace(kx[i]) + np.trace(ky[j]) - 2 * f),
+                         float(np.trace(kx[i]) + np.trace(ky[j])))
+            row.append(w)
+        out.append(row)
+    return out
+
+
+def check_session(case, run_steps):
+    """the same objects through successive compare() calls: every call equals the definition on the
+    ORIGINAL numbers, leaves its inputs bit-identical and does not raise (read-only input is valid).
+    All calls are judged; a wrong value is reported in preference to an exception, a wrong shape, or a
+    modified input (the first of each kind)."""
+    n = case['n']
+    X = [[fr(v) for v in r] for r in case['x']]          # pristine, exact
+    Y = [[fr(v) for v in r] for r in case['y']]
+    got = run_steps(case)
+    names = [st['method'] for st in case['steps']]
+    fails = {}
+
+    def note(kind, f):
+        fails.setdefault(kind, f)
+    for k, (st, g) in enumerate(zip(case['steps'], got)):
+        method, sig = st['method'], st['sigma']
+        c = {'method': method, 'sigma': sig}
+        extra = dict(call=k, container=case['container'], earlier=names[:k])
+        M = g['result']
+        if not g['intact']:
+            note('purity', _fail(c, 'purity', f"compare(.., '{method}') changed the {case['container']} objects it "
+                                 f"was given (call {k} of {names})", 'inputs modified',
+                                 'inputs bit-identical after the call', **extra))
+        if isinstance(M, dict):
+            note('session_raises', _fail(c, 'session_raises', f"compare(.., '{method}') raises on valid input "
+                                         f"({case['container']} objects, call {k} of the session {names})", M,
+                                         'a matrix', **extra))
+            continue
+        if len(M) != len(X) or any(len(r) != len(Y) for r in M):
+            note('shape', _fail(c, 'shape', 'result is not (n_rdm1 x n_rdm2)', [len(M), len(M[0]) if M else 0],
+                                [len(X), len(Y)], **extra))
+            continue
+        want = define_matrix(method, n, sig, X, Y)
+        if want is None:
+            continue
+        tol = _tol(method, sig)
+        for i in range(len(X)):
+            for j in range(len(Y)):
+                w, scale = want[i][j], 1.0
+                if isinstance(w, tuple):
+                    w, scale = w
+                if w is None:
+                    continue
+                if M[i][j] is None or not _eq(M[i][j], w, tol, scale):
+                    note('session_value', _fail(
+                        c, 'session_value',
+                        f"call {k} of a session on the same {case['container']} objects ({names}): entry ({i},{j}) "
+                        f"of compare(.., '{method}') is not the measure of the RDMs that were passed",
+                        M[i][j], w, i=i, j=j, **extra))
+    for kind in ('session_value', 'session_raises', 'shape', 'purity'):
+        if kind in fails:
+            return fails[kind]
+    return None
 
 def check_pair_only(case, call):
     """tau-a of two plain vectors against the definition (used for the `passes` kind, whose
